@@ -27,6 +27,7 @@ FIXED = [
  ("C12", "unresolved_namespaces reports the namespace of an attribute", "clone_with_prefixes of an element that binds a namespace only as default namespace while a descendant attribute is in that namespace: the inherited prefixed binding was not copied, the clone failed to serialise (MissingPrefix) although the source serialised in place"),
  ("C20", "xotify puts the trailing comments", "fixed::Document::xotify appended the `after` comments / processing instructions as children of the document element instead of as siblings after it"),
  ("C10", "generates prefixes that are not in use", "create_missing_prefixes named its prefixes n0, n1, ... from zero on every call: a second call (after a node in a new namespace had been added) or an existing user prefix n0 had its binding overridden by the newly generated n0; names that relied on it no longer resolved (to_string: MissingPrefix)"),
+ ("C14", "adds no indentation inside the scope of xml:space", "with indentation enabled, elements nested inside an xml:space=\"preserve\" element that is itself at depth >= 1 were indented with spaces (whitespace-only text added inside the preserve scope)"),
  ("C07", "reverse_children walks", "reverse_children(n) never terminated for a node with two or more ordinary children (indextree Children::next_back never advances); it yields the last child for ever"),
  ("C09", "prefix_for_namespace skips shadowed", "prefix_for_namespace returned None as soon as it met a prefix that a nearer declaration shadows, although another prefix (or the built-in xml prefix) was bound to the namespace further up"),
  ("C09", "qualified name of an attribute node never uses the empty prefix", "node_name_ref / name_ref / full_name on an attribute node whose namespace is only bound as the default namespace reported the empty prefix (which for an attribute means no namespace)"),
